@@ -25,7 +25,7 @@ BUILT = {
          "Header-value classes x status x request kind; a reference model of the interval is compared with every policy argument, announcement and with what a machine rebuilt on each committed map presents. A partial-storage-fault batch makes writes and removals of the neighbouring key last_update_time fail: the interval must still reach storage.",
          "Atomic commit; '+N' and duplicate headers accept any listed reading."),
  "C08": ("deterministic simulation of a volatile-cache disk with crash injection and probe restarts; 3-field reference model", "6.C08",
-         "Histories of checks and pings over all outcome classes; the model (failures, last contact) is compared with announcements, policy arguments, the state presented by a machine rebuilt on every committed map, and by the machine really rebuilt after a crash at a drawn interaction.",
+         "Histories of checks and pings over all outcome classes; the model (failures, last contact) is compared with announcements, policy arguments, the state presented by a machine rebuilt on every committed map, and by the machine really rebuilt after a crash at a drawn interaction. What a machine presents at start-up is also compared with an independent reading of the stored integers.",
          "Storage contract (atomic commit, read-your-writes); which clock reading inside the check becomes the last-contact time is open."),
  "C09": ("deterministic simulation; per-app reference record vs requests, policy arguments and probe restarts", "6.C09",
          "Responses with every subset of cohort fields (absent vs empty) and daystart for any subset/order of the app set; record compared with the next requests, policy arguments and restarts with embedder presets. Joint commit rule: a commit that still restores the previous app data must also still hold the previous last-contact time.",
@@ -34,13 +34,13 @@ BUILT = {
          "Requests are released inside in-flight operations with batch readiness; each reply must be justified by a policy decision / busy interval inside [invoke, reply]; on-demand upgrade both ways; gone-after-drop; wake-up without timer in a far-timer profile.",
          "A request unanswered when the run is cut is not judged."),
  "C12": ("deterministic simulation with late / reordered timer firing", "6.C12",
-         "Timers fire late and in any order; a check or ping not attributable to a control request must come after all timers of its wait fired; arming arguments must equal the policy's answer.",
+         "Timers fire late and in any order; a check or ping not attributable to a control request must come after all timers of its wait fired; arming arguments must equal the policy's answer. Restarts included: the first wait of a lifetime, also one that finds an installed update not yet booted into, is a wait like any other.",
          "Timers never fire early (Timer contract)."),
  "C10": ("deterministic simulation; per-path prescription of event reports with per-report delivery faults", "6.C10",
          "Multi-app responses x policy decisions x installer result vectors x delivery outcome of each report; the event-bearing requests of every completed check are compared (count, order, apps, codes, versions) with the path's prescription, and lost-event accounting is checked per undeliverable report.",
          "Empty-app-list reports may be sent or not; lost-event count for a multi-app single-event report is 1 or one per app."),
  "C13": ("deterministic simulation of consumer polling schedules: generator programs in isolation and the state machine under lazy / spurious polling", "6.C13",
-         "Random generator programs under random consumer schedules through all four adaptors (items in order, exactly one completion, end, back-pressure, wake-up discipline, termination), plus in-situ back-pressure and progress-order rules on the state machine under lazy consumers. The simulated installer repeats progress values, cancels reports after their first poll and has two reports in flight at once.",
+         "Random generator programs under random consumer schedules through all four adaptors (items in order, exactly one completion, end, back-pressure, wake-up discipline, termination), plus in-situ back-pressure and progress-order rules on the state machine under lazy consumers. The simulated installer repeats progress values, cancels reports after their first poll and has two reports in flight at once; a report returns to the installer only after the observer has taken its value (reports that overlap a control request under way are left out); the observer locks the shared storage or app set while handling an event.",
          "into_complete hides item receipt; a halt is judged only while the stream is alive."),
  "C14": ("deterministic simulation with hostile inputs and differential re-runs (storage failures on/off)", "6.C14",
          "Garbage/bit-flipped/truncated bodies, hostile stored values, malformed URLs, wall-clock jumps, metrics errors and crashes with a formatting log subscriber installed; any panic while library code runs is a violation; the same seed is re-run with storage failures switched off and requests/events must be identical. ETags with a request-hash half of another length and arbitrary ETag texts arrive in situ with CUP on; a run that does not return is reported as a hang.",
@@ -58,7 +58,7 @@ BUILT = {
          "A model of first-seen time, consecutive failed installs and the pending-reboot record is compared with metrics and restart behaviour over histories with crashes at drawn interactions (biased to recovery paths), reboots and version changes. One known finding (double report when the process dies between report and clear) is listed in KNOWN_FINDINGS.txt. Since the third wave: wall-clock steps inside a lifetime with a per-trip model of the waited-for-reboot report (retried until the clocks allow it), partial storage faults on the first-seen time (plan id rollback), times outside the i64-microsecond range modelled exactly, and a directed batch for a report that is delayed past another install.",
          "1 us tolerance; attempts cut by a crash may count or not; which clock reading of a trip is the loop-top one is not observable (a report must match some reading of its trip)."),
  "C19": ("deterministic simulation of clock trajectories x storage round trip x restart, and of the comparison clause at the timer seam", "6.C19",
-         "Pre-epoch, sub-microsecond and beyond-i64-microsecond wall clocks plus hostile stored integers; every stored time must come back truncated toward the epoch at microsecond precision (exact comparisons) or be dropped exactly when it does not fit, and be re-persisted unchanged. The pure two-clock algebra and truncate_submicrosecond_walltime are not reachable through any seam and are NOT claimed. Rule R5: the simulated timer asks the library's is_after_or_eq_any when it is armed and when it fires, under wall-clock steps between the two; the answer is compared with the integer comparison of the recorded clock values.",
+         "Pre-epoch, sub-microsecond and beyond-i64-microsecond wall clocks plus hostile stored integers; every stored time must come back truncated toward the epoch at microsecond precision (exact comparisons) or be dropped exactly when it does not fit, and be re-persisted unchanged; what a restarted machine presents is compared with an independent reading of the stored integer (either sign, sub-second magnitudes). The pure two-clock algebra and truncate_submicrosecond_walltime are not reachable through any seam and are NOT claimed. Rule R5: the simulated timer asks the library's is_after_or_eq_any when it is armed and when it fires, under wall-clock steps between the two; the answer is compared with the integer comparison of the recorded clock values.",
          "Partial claim: persistence path and the comparison clause at the timer seam; the rest of the two-clock algebra is not claimed (DESIGN.md 6.C19)."),
 }
 
